@@ -575,10 +575,13 @@ func (c *compiler) compileFunc(compilerScope compilerScopeType, Ast ast.Ast, Arg
 	newC.Code.Argcount = int32(len(Args.Args))
 	newC.Code.Kwonlyargcount = int32(len(Args.Kwonlyargs))
 
+	// Load decorators onto stack (below the defaults which
+	// MAKE_FUNCTION pops)
+	c.Exprs(DecoratorList)
+
 	// Defaults
 	c.Exprs(Args.Defaults)
 
-	// KwDefaults
 	// KwDefaults is parallel to Kwonlyargs, nil = no default
 	if len(Args.KwDefaults) > len(Args.Kwonlyargs) {
 		panic("compile: more KwDefaults than Kwonlyargs")
@@ -616,9 +619,6 @@ func (c *compiler) compileFunc(compilerScope compilerScopeType, Ast ast.Ast, Arg
 		num_annotations++ // include the tuple
 		c.LoadConst(annotations)
 	}
-
-	// Load decorators onto stack
-	c.Exprs(DecoratorList)
 
 	// Make function or closure, leaving it on the stack
 	posdefaults := uint32(len(Args.Defaults))
